@@ -1056,6 +1056,14 @@ class MutableFileVersion:
         log.msg("got %d old segments, %d new segments" % \
                         (num_old_segments, num_new_segments))
 
+        # An append to a file whose size is a multiple of the segment
+        # size (the empty file included) starts in a segment that does
+        # not exist yet: there is no old boundary segment to fetch and
+        # merge, so we re-encode as well.
+        if offset == old_size and offset // segment_size == num_old_segments:
+            log.msg("doing re-encode instead of in-place update")
+            return self._do_modify_update(data, offset)
+
         # Otherwise, we can replace just the parts that are changing.
         log.msg("updating in place")
         d = self._do_update_update(data, offset)
